@@ -262,14 +262,27 @@ def main():
     for text, _expect, _label in c06.SCOPES:
         todo.append(([], text, False))
     stats['scope_texts'] = len(c06.SCOPES)
+    # every scope text once more, as it is (the copies above go to a parser with a history)
+    for text, _expect, _label in c06.SCOPES:
+        todo.append(([], text, None))
     # texts that define a name twice (C06 says they are rejected): whatever the compiler accepts
     # of them must still be an image in which every call leads to the routine the source names
     for label, text in c06.RULES:
         if label.startswith('redefine'):
             todo.append(([], text, False))
             stats['redefinition_texts'] = stats.get('redefinition_texts', 0) + 1
+    # the scope and redefinition texts are compiled by a parser that has just FAILED in the middle
+    # of a loop, a routine, a matrix block or an expression (a ScriptJob keeps its parser): what
+    # the earlier compile left behind must not let a stray `break` or a second definition through
+    poisons = ['repeat 2 begin nosuch end', 'define f begin repeat 3 begin hue nosuch end end',
+               'set "Candle" begin stage row 0 nosuch', 'repeat all as x begin repeat 2 begin print {x +',
+               'define g with a begin if {a > 0} begin return nosuch end end']
+    n_poisoned = 0
     for prog, text, must_accept in todo:
         parser = Parser()
+        if must_accept is False:
+            parser.parse(poisons[n_poisoned % len(poisons)])
+            n_poisoned += 1
         chk.count()
         try:
             ok = parser.parse(text)
